@@ -33,7 +33,6 @@ func (P *extPoint) getXY() (x, y *mod.Int) {
 }
 
 func (P *extPoint) String() string {
-	P.normalize()
 	buf, _ := P.MarshalBinary()
 	return hex.EncodeToString(buf)
 }
@@ -43,8 +42,8 @@ func (P *extPoint) MarshalSize() int {
 }
 
 func (P *extPoint) MarshalBinary() ([]byte, error) {
-	P.normalize()
-	return P.c.encodePoint(&P.X, &P.Y), nil
+	Q := P.normalized()
+	return P.c.encodePoint(&Q.X, &Q.Y), nil
 }
 
 func (P *extPoint) UnmarshalBinary(b []byte) error {
@@ -121,6 +120,15 @@ func (P *extPoint) normalize() {
 	P.T.Mul(&P.X, &P.Y)
 }
 
+// normalized returns a normalized copy of P, leaving P untouched, so that
+// read-only methods do not write to a point that may be shared.
+func (P *extPoint) normalized() *extPoint {
+	var Q extPoint
+	Q.Set(P)
+	Q.normalize()
+	return &Q
+}
+
 // Check the validity of the T coordinate
 //
 //nolint:unused // may be useful
@@ -143,8 +151,8 @@ func (P *extPoint) Pick(rand cipher.Stream) kyber.Point {
 
 // Extract embedded data from a point group element
 func (P *extPoint) Data() ([]byte, error) {
-	P.normalize()
-	return P.c.data(&P.X, &P.Y)
+	Q := P.normalized()
+	return P.c.data(&Q.X, &Q.Y)
 }
 
 // Add two points using optimized extended coordinate addition formulas.
